@@ -320,16 +320,17 @@ def translate(path):
     return b
 
 
-def main(argv):
+def main(argv, scripts=None, outname="LuaScripts.v"):
     if len(argv) != 3:
         print(__doc__, file=sys.stderr)
         return 2
     repo, gen = argv[1], argv[2]
+    scripts = scripts or SCRIPTS
     os.makedirs(gen, exist_ok=True)
     out = ["(* GENERATED by translators/lua2coq.py from %s/internal/redis_lua/*.lua -- do not edit. *)" % "<repo>",
            "From Coq Require Import List ZArith String.", "From Cfg Require Import Model.LuaAst.",
            "Import ListNotations.", "Open Scope string_scope.", "Open Scope Z_scope.", ""]
-    for name in SCRIPTS:
+    for name in scripts:
         path = os.path.join(repo, "internal", "redis_lua", name + ".lua")
         try:
             b = translate(path)
@@ -339,7 +340,7 @@ def main(argv):
         out.append("Definition %s : block :=\n  [ %s ]." % (name, ";\n    ".join(b)))
         out.append("")
     txt = "\n".join(out)
-    dst = os.path.join(gen, "LuaScripts.v")
+    dst = os.path.join(gen, outname)
     old = open(dst).read() if os.path.exists(dst) else None
     if old != txt:            # keep mtime when unchanged so make does not rebuild the cone
         open(dst, "w").write(txt)
